@@ -432,6 +432,7 @@ var c13Ops = []c13Op{
 	{name: "AddStyle(X,paragraph,bold)", kind: "addstyle", id: "X"},
 	{name: "AddParagraph.SetStyle(X)", kind: "setstyle", id: "X"},
 	{name: "RemoveStyle(X)", kind: "remove", id: "X"},
+	{name: "RemoveStyle(Heading9) [while no paragraph uses it]", kind: "remove", id: "Heading9"},
 	{name: "GetStyle(X) edited in place (bold toggled, basedOn Normal<->Heading1, renamed)", kind: "editstyle", id: "X"},
 	{name: "GetStyle(Heading1) edited in place (bold toggled, renamed)", kind: "editstyle", id: "Heading1"},
 	{name: "CreateQuickStyle(T,table)", kind: "quick", id: "T"},
@@ -501,6 +502,59 @@ func (i *c13Inst) stage() string {
 	return "first-save"
 }
 
+// bodyUses: a paragraph of the in-memory body (top level or in a table cell) carries the paragraph style id.
+func (i *c13Inst) bodyUses(id string) bool {
+	if i.doc == nil || i.doc.Body == nil {
+		return false
+	}
+	var inTable func(t *document.Table) bool
+	para := func(p *document.Paragraph) bool {
+		return p != nil && p.Properties != nil && p.Properties.ParagraphStyle != nil && p.Properties.ParagraphStyle.Val == id
+	}
+	inTable = func(t *document.Table) bool {
+		if t == nil {
+			return false
+		}
+		for r := range t.Rows {
+			for c := range t.Rows[r].Cells {
+				cell := &t.Rows[r].Cells[c]
+				for k := range cell.Paragraphs {
+					if para(&cell.Paragraphs[k]) {
+						return true
+					}
+				}
+				for k := range cell.Tables {
+					if inTable(&cell.Tables[k]) {
+						return true
+					}
+				}
+			}
+		}
+		return false
+	}
+	for _, e := range i.doc.Body.Elements {
+		switch x := e.(type) {
+		case *document.Paragraph:
+			if para(x) {
+				return true
+			}
+		case *document.Table:
+			if inTable(x) {
+				return true
+			}
+		case *document.SDT:
+			if x.Content != nil {
+				for _, ce := range x.Content.Elements {
+					if p, ok := ce.(*document.Paragraph); ok && para(p) {
+						return true
+					}
+				}
+			}
+		}
+	}
+	return false
+}
+
 func (i *c13Inst) regHas(id string, t style.StyleType) bool {
 	s := i.doc.GetStyleManager().GetStyle(id)
 	return s != nil && s.Type == string(t)
@@ -522,7 +576,7 @@ func (i *c13Inst) Enabled(op int) bool {
 		return i.regHas(o.id, style.StyleTypeTable)
 	case "remove":
 		// only styles no element uses are removed
-		return i.doc.GetStyleManager().StyleExists(o.id) && i.uses[o.id] == 0
+		return i.doc.GetStyleManager().StyleExists(o.id) && i.uses[o.id] == 0 && !i.bodyUses(o.id)
 	case "quick":
 		// also when the id is taken: the call must then be refused and leave the registry as it was
 		return true
